@@ -113,8 +113,8 @@ def run(tier, replay):
     with vlib.Scratch("c07") as sc:
         with ThreadPoolExecutor(max_workers=4) as ex:
             futs = [ex.submit(one_config, i, n, kinds, sc, nsim, nfree, vlib.seed(), 3000) for i, (n, kinds) in enumerate(menu)]
-            # idle time as a dimension: N tasks, then the pool is left alone (35 s; thorough 65 s and 125 s), then 2N+1 more tasks
-            for j, secs in enumerate([35] if tier == "quick" else [65, 125]):
+            # idle time as a dimension: N tasks, then the pool is left alone (35 s; thorough 65 s and 200 s), then 2N+1 more tasks
+            for j, secs in enumerate([35] if tier == "quick" else [65, 200]):
                 futs.append(ex.submit(one_config, 900 + j, 2, ["rdv", "rdv", "rdv", "rdv", "instant", "rdv", "rdv"], sc, 2, 1, vlib.seed(), 3000,
                                       None, ["--idle-after", 2, "--idle-ms", secs * 1000]))
             for f in futs:
